@@ -221,4 +221,131 @@ theorem scan_finds_start (cfg : Cfg) (noise tagText rest : Text) (attrs : List (
     omega
   rw [this]
 
+/-! ### a whole comment text: any number of tags, glued or separated -/
+
+/-- one stretch of a comment text: `<`-free noise followed by a tag as written -/
+structure Seg where
+  noise : Text
+  tagText : Text
+  /-- `some attrs` = a start tag with these attributes, `none` = an end tag -/
+  kind : Option (List (Text × Text))
+
+/-- the tag text is what the parsers accept, whatever follows it -/
+def Seg.Ok (cfg : Cfg) (s : Seg) : Prop :=
+  (∀ c ∈ s.noise, c ≠ '<') ∧ (∃ t0, s.tagText = '<' :: t0) ∧
+  match s.kind with
+  | some attrs => ∀ rest, parseStart cfg (s.tagText ++ rest) = some (attrs, rest)
+  | none => ∀ rest, parseStart cfg (s.tagText ++ rest) = none ∧ parseEnd (s.tagText ++ rest) = some rest
+
+def renderSegs : List Seg → Text
+  | [] => []
+  | s :: ss => s.noise ++ (s.tagText ++ renderSegs ss)
+
+/-- the tags with their byte ranges, as laid out from offset `off` -/
+def expectTags : Nat → List Seg → List Tag
+  | _, [] => []
+  | off, s :: ss =>
+    let st := off + ulen s.noise
+    let e := st + ulen s.tagText
+    (match s.kind with
+      | some attrs => Tag.start st e attrs
+      | none => Tag.stop st e) :: expectTags e ss
+
+theorem scan_noise_only (cfg : Cfg) (noise : Text) (h : ∀ c ∈ noise, c ≠ '<') (fuel off : Nat) :
+    scan cfg fuel off noise = [] := by
+  induction noise generalizing fuel off with
+  | nil => cases fuel <;> simp [scan]
+  | cons c cs ih =>
+    cases fuel with
+    | zero => simp [scan]
+    | succ f =>
+      have hc : c ≠ '<' := h c (by simp)
+      simp only [scan, hc, if_false]
+      exact ih (fun x hx => h x (by simp [hx])) _ _
+
+theorem scan_segs_aux (cfg : Cfg) (segs : List Seg) (hok : ∀ s ∈ segs, s.Ok cfg) (tail : Text) (htail : ∀ c ∈ tail, c ≠ '<') :
+    ∀ fuel off, (renderSegs segs ++ tail).length < fuel →
+      scan cfg fuel off (renderSegs segs ++ tail) = expectTags off segs := by
+  induction segs with
+  | nil =>
+    intro fuel off _
+    simp only [renderSegs, List.nil_append, expectTags]
+    exact scan_noise_only cfg tail htail fuel off
+  | cons s ss ih =>
+    intro fuel off hf
+    obtain ⟨hnoise, ⟨t0, ht0⟩, hkind⟩ := hok s (List.mem_cons_self ..)
+    have ihs := ih (fun x hx => hok x (List.mem_cons_of_mem _ hx))
+    simp only [renderSegs, List.append_assoc] at hf ⊢
+    -- skip the noise
+    have hfuel : fuel = s.noise.length + (fuel - s.noise.length) := by
+      simp only [List.length_append] at hf; omega
+    rw [hfuel, scan_skips_noise cfg s.noise _ hnoise]
+    -- one step at the tag
+    have hlen : (s.tagText ++ (renderSegs ss ++ tail)).length < fuel - s.noise.length := by
+      simp only [List.length_append] at hf ⊢; omega
+    obtain ⟨f', hf'⟩ : ∃ f', fuel - s.noise.length = f' + 1 := ⟨fuel - s.noise.length - 1, by omega⟩
+    rw [hf']
+    have hrest : (renderSegs ss ++ tail).length < f' := by
+      have : s.tagText.length ≥ 1 := by rw [ht0]; simp
+      simp only [List.length_append] at hlen ⊢; omega
+    have hul : ulen (s.tagText ++ (renderSegs ss ++ tail)) - ulen (renderSegs ss ++ tail) = ulen s.tagText := by
+      have := ulen_append s.tagText (renderSegs ss ++ tail); omega
+    cases hk : s.kind with
+    | some attrs =>
+      rw [hk] at hkind
+      have hp := hkind (renderSegs ss ++ tail)
+      rw [ht0] at hp hul ⊢
+      simp only [List.cons_append, scan, if_true] at hp hul ⊢
+      rw [hp]
+      simp only [expectTags, hk, ht0]
+      rw [hul, ihs f' _ hrest]
+    | none =>
+      rw [hk] at hkind
+      obtain ⟨hp1, hp2⟩ := hkind (renderSegs ss ++ tail)
+      rw [ht0] at hp1 hp2 hul ⊢
+      simp only [List.cons_append, scan, if_true] at hp1 hp2 hul ⊢
+      rw [hp1, hp2]
+      simp only [expectTags, hk, ht0]
+      rw [hul, ihs f' _ hrest]
+
+/-- **the scanner finds exactly the tags written, each at its byte range, wherever they sit**: a comment text made of any
+    number of tags - start tags in any accepted spelling, end tags - separated (or not: the noise may be empty, tags may be
+    glued, a tag may be the first or the last bytes of the text) by `<`-free text yields those tags in order, with the byte
+    offsets at which they were written, and nothing else -/
+theorem scan_sequence (cfg : Cfg) (segs : List Seg) (hok : ∀ s ∈ segs, s.Ok cfg) (tail : Text) (htail : ∀ c ∈ tail, c ≠ '<') :
+    scanAll cfg (renderSegs segs ++ tail) = expectTags 0 segs :=
+  scan_segs_aux cfg segs hok tail htail _ 0 (Nat.lt_succ_self _)
+
+/-- every rendering of a well-formed attribute list is an acceptable start-tag segment -/
+theorem seg_ok_start (cfg : Cfg) (hc : cfg.WF) (noise : Text) (hn : ∀ c ∈ noise, c ≠ '<') (as : List Attr)
+    (hwf : ∀ a ∈ as, a.WF cfg) (wsEnd : Text) (hw : allp isSp wsEnd) :
+    (Seg.mk noise ("<block".toList ++ (renderAll as ++ tailOf wsEnd [])) (some (as.map (fun a => (a.name, a.val.text))))).Ok cfg := by
+  refine ⟨hn, ⟨_, rfl⟩, ?_⟩
+  intro rest
+  have := start_roundtrip cfg hc as hwf wsEnd rest hw
+  simp only [tailOf, List.append_assoc, List.cons_append, List.nil_append] at this ⊢
+  exact this
+
+/-- every spelling `<` ws* `/` ws* `block` ws* `>` is an acceptable end-tag segment -/
+theorem seg_ok_end (cfg : Cfg) (noise : Text) (hn : ∀ c ∈ noise, c ≠ '<') (w1 w2 w3 : Text)
+    (h1 : allp isSp w1) (h2 : allp isSp w2) (h3 : allp isSp w3) :
+    (Seg.mk noise ('<' :: (w1 ++ '/' :: (w2 ++ ("block".toList ++ (w3 ++ ['>']))))) none).Ok cfg := by
+  refine ⟨hn, ⟨_, rfl⟩, ?_⟩
+  intro rest
+  constructor
+  · apply lookalike_prefix
+    cases w1 with
+    | nil => simp [stripPrefix]
+    | cons c cs =>
+      have hc : isSp c = true := h1 c (List.mem_cons_self ..)
+      have hb : ¬ 'b' = c := by intro h; subst h; revert hc; decide
+      simp [stripPrefix, hb]
+  · have := end_ws w1 w2 w3 rest h1 h2 h3
+    simp only [List.append_assoc, List.cons_append, List.nil_append] at this ⊢
+    exact this
+
+/-- non-vacuity: a start tag glued to an end tag at the very end of the text, after a bare start tag at the very beginning -/
+example : scanAll realCfg "<block>x</block><block a=1>".toList =
+    [.start 0 7 [], .stop 8 16, .start 16 27 [("a".toList, "1".toList)]] := by decide +kernel
+
 end Bw.Props.C05
